@@ -202,6 +202,17 @@ class Interp:
             self._atomic_cache[key] = any(isinstance(n, ast.While) for n in walk_no_nested(f.node))
         return self._atomic_cache[key]
 
+    def is_function_term(self, t: Term) -> bool:
+        """a lambda / local function, a later helper of the package, or a functools.partial of one"""
+        if t[0] == "lam":
+            return True
+        if t[0] == "call" and t[1] in (("name", "partial"), ("attr", ("name", "functools"), "partial")) and t[2]:
+            return self.is_function_term(t[2][0])
+        if t[0] in ("name", "attr"):
+            fn = self.resolve_function(t)
+            return fn is not None and self.inline(fn)
+        return False
+
     def resolve_function(self, fterm: Term) -> Optional[FuncInfo]:
         """the package function a callee term names, seen from the analysed function (None for anything else)"""
         dummy = ast.Call(func=ast.Name(id="<post-hoc>", ctx=ast.Load()), args=[], keywords=[], lineno=0, col_offset=0)
@@ -262,9 +273,12 @@ class Interp:
                 frame.env[p] = ("param", p)
 
     # ------------------------------------------------------------------ post-hoc evaluation
-    def call_value(self, fterm: Term, args: Tuple[Term, ...], conds: Tuple[Cond, ...] = (), loops: Tuple[int, ...] = ()) -> Optional[Term]:
+    def call_value(self, fterm: Term, args: Tuple[Term, ...], conds: Tuple[Cond, ...] = (), loops: Tuple[int, ...] = (), kwargs: tuple = ()) -> Optional[Term]:
         """Result term of calling a closure term with `args` at a point with the given path condition (used by rules to look
         into key functions / callbacks that the analysed code only passes along).  The event log is left unchanged."""
+        if fterm[0] == "call" and fterm[1] in (("name", "partial"), ("attr", ("name", "functools"), "partial")) and fterm[2] \
+                and not any(k == "**" for k, _ in fterm[3]):
+            return self.call_value(fterm[2][0], tuple(fterm[2][1:]) + tuple(args), conds, loops, tuple(fterm[3]) + tuple(kwargs))
         n_ev, n_lp, n_ob, seq = len(self.events), len(self.loops), len(self.objs), self._seq
         if fterm[0] != "lam":
             # a package function that is not part of the reference vocabulary (a helper selected into a local)
@@ -274,7 +288,7 @@ class Interp:
                 return None
             given = ((self_term,) + tuple(args)) if self_term is not None else tuple(args)
             try:
-                return self._inline(tgt.node, None, self._module_defaults(tgt), tgt, given, (), _State(conds, loops), dummy, tgt)
+                return self._inline(tgt.node, None, self._module_defaults(tgt), tgt, given, tuple(kwargs), _State(conds, loops), dummy, tgt)
             finally:
                 self.post_events = self.events[n_ev:]
                 del self.events[n_ev:]
@@ -282,7 +296,7 @@ class Interp:
         c = self.closures[fterm[1]]
         dummy = ast.Call(func=ast.Name(id="<post-hoc>", ctx=ast.Load()), args=[], keywords=[], lineno=getattr(c.node, "lineno", 0), col_offset=0)
         try:
-            r = self._inline(c.node, c.frame, c.defaults, c.finfo, tuple(args), (), _State(conds, loops), dummy, None)
+            r = self._inline(c.node, c.frame, c.defaults, c.finfo, tuple(args), tuple(kwargs), _State(conds, loops), dummy, None)
         finally:
             self.post_events = self.events[n_ev:]
             del self.events[n_ev:]
